@@ -186,7 +186,7 @@ def r1(prog: Program, rep):
                     rep.ok("C13.R1", key, reason, loc)
                     continue
                 if kind_t in ("external", "external-or-status"):
-                    if must(st, "self.external_solution_paths", {NOTNONE}):
+                    if must(st, "N:self.external_solution_paths", {NOTNONE}):
                         rep.ok("C13.R1", key, reason, loc,
                                sample={"writer": what, "function": f.qualname, "proof": "self.external_solution_paths is not None"})
                         continue
@@ -213,9 +213,8 @@ def loop_with_solver_run(flow_cls, prog, f) -> Optional[ast.For]:
     return None
 
 
-def r2(prog: Program, rep):
-    rep.rule("C13.R2", "search protocol of the minimum searches over k and of NumPathsOptimization", floor=20)
-    for cname, mname, starts in K_LOOPS:
+def k_loop_protocol(prog: Program, rep, RID: str, cname: str, mname: str, starts):
+    if True:
         f = prog.own_method(cname, mname)
         loop = loop_with_solver_run(None, prog, f)
         if loop is None:
@@ -236,39 +235,39 @@ def r2(prog: Program, rep):
             raise AnalysisError(f"{base}: k-loop iterator is not range(lo, hi[, step]): {norm(it)}")
         start = norm(substitute_locals(it.args[0], defs))
         if start in starts or start == "1":
-            rep.ok("C13.R2", f"{base}:P1-start", f"search starts at {start}", f.loc(loop))
+            rep.ok(RID, f"{base}:P1-start", f"search starts at {start}", f.loc(loop))
         else:
-            rep.violation("C13.R2", f"{base}:P1-start", f"k-loop starts at `{start}`, not at the lower bound "
+            rep.violation(RID, f"{base}:P1-start", f"k-loop starts at `{start}`, not at the lower bound "
                           f"({' / '.join(sorted(starts))}): a smaller feasible k is skipped", f.loc(loop))
         if len(it.args) == 3 and norm(it.args[2]) != "1":
-            rep.violation("C13.R2", f"{base}:P1-step", f"k-loop step is {norm(it.args[2])}, must ascend by one", f.loc(loop))
+            rep.violation(RID, f"{base}:P1-step", f"k-loop step is {norm(it.args[2])}, must ascend by one", f.loc(loop))
         else:
-            rep.ok("C13.R2", f"{base}:P1-step", "ascends by one", f.loc(loop))
+            rep.ok(RID, f"{base}:P1-step", "ascends by one", f.loc(loop))
         # P2 back edge / returns
         for kind, node, state, what in flow.events:
             if kind == "back-edge" and node is loop:
                 good = [k for k in loop_keys if must(state, k, {INF})]
                 if good:
-                    rep.ok("C13.R2", f"{base}:P2-back-edge", f"next k only after status class {{infeasible}} of {good}",
+                    rep.ok(RID, f"{base}:P2-back-edge", f"next k only after status class {{infeasible}} of {good}",
                            f.loc(loop), sample={"loop": norm(loop.iter), "state_at_back_edge": describe(state, loop_keys)})
                 else:
-                    rep.violation("C13.R2", f"{base}:P2-back-edge",
+                    rep.violation(RID, f"{base}:P2-back-edge",
                                   f"the search moves on to the next k with status classes {describe(state, loop_keys)}: "
                                   f"an inconclusive run (time limit, unknown status) is skipped like an infeasible one", f.loc(loop))
             if kind == "return":
                 val = node.value
                 tok = flow.const_token(val) if val is not None else "None"
                 if tok in ("False", "None"):
-                    rep.ok("C13.R2", f"{base}:P2-return-false@{_ctx(node, loop)}", "not-solved exit", f.loc(node), nontrivial=False)
+                    rep.ok(RID, f"{base}:P2-return-false@{_ctx(node, loop)}", "not-solved exit", f.loc(node), nontrivial=False)
                     continue
                 st = state if tok == "True" else flow._refine(val, True, state)
                 if proof_keys(flow, st):
-                    rep.ok("C13.R2", f"{base}:P2-return-true", f"`return {what}` only with {proof_keys(flow, st)} proven optimal", f.loc(node))
+                    rep.ok(RID, f"{base}:P2-return-true", f"`return {what}` only with {proof_keys(flow, st)} proven optimal", f.loc(node))
                 else:
-                    rep.violation("C13.R2", f"{base}:P2-return-true", f"`return {what}` reachable without a proven-optimal model "
+                    rep.violation(RID, f"{base}:P2-return-true", f"`return {what}` reachable without a proven-optimal model "
                                   f"(state {describe(st, loop_keys)[:200]})", f.loc(node))
             if kind == "fallthrough":
-                rep.ok("C13.R2", f"{base}:P4-fallthrough", "falls off the end (returns None = not solved)", f.loc(), nontrivial=False)
+                rep.ok(RID, f"{base}:P4-fallthrough", "falls off the end (returns None = not solved)", f.loc(), nontrivial=False)
             if kind == "solution-store":
                 # P3: published solution is read from the proven model
                 val = node.value
@@ -290,10 +289,16 @@ def r2(prog: Program, rep):
                                     src_keys.add(rk[:-len(".solver")] if rk.endswith(".solver") else rk)
                 proven = set(proof_keys(flow, state))
                 if src_keys and src_keys <= proven:
-                    rep.ok("C13.R2", f"{base}:P3-publish", f"published solution read from proven model {sorted(src_keys)}", f.loc(node))
+                    rep.ok(RID, f"{base}:P3-publish", f"published solution read from proven model {sorted(src_keys)}", f.loc(node))
                 else:
-                    rep.violation("C13.R2", f"{base}:P3-publish", f"`self._solution = {what[:80]}` is not read from a model proven "
+                    rep.violation(RID, f"{base}:P3-publish", f"`self._solution = {what[:80]}` is not read from a model proven "
                                   f"optimal at this point (sources {sorted(src_keys)}, proven {sorted(proven)})", f.loc(node))
+
+
+def r2(prog: Program, rep):
+    rep.rule("C13.R2", "search protocol of the minimum searches over k and of NumPathsOptimization", floor=20)
+    for cname, mname, starts in K_LOOPS:
+        k_loop_protocol(prog, rep, "C13.R2", cname, mname, starts)
     # NumPathsOptimization
     f = prog.own_method("NumPathsOptimization", "solve")
     flow = SolveFlow(prog, f)
@@ -368,7 +373,7 @@ def guarded_state(state) -> bool:
     for w in state:
         if w.get("#checked") == frozenset(["T"]):
             continue
-        v = w.get("self._solution")
+        v = w.get("N:self._solution")
         if v is not None and v <= {NOTNONE}:
             continue
         return False
@@ -529,21 +534,20 @@ def handler_reraises(h: ast.ExceptHandler) -> bool:
     return any(isinstance(n, ast.Raise) for n in walk_no_nested(h))
 
 
-def r5(prog: Program, rep):
-    rep.rule("C13.R5", "no process exit; no handler swallows around a solver run (one tabled exception)", floor=2)
+def no_process_exit(prog: Program, rep, RID: str):
     n_exit = 0
     for f in prog.all_functions():
         for c in calls_in(f.node, nested=True):
             d = dotted(c.func)
             if d in EXIT_CALLS:
                 n_exit += 1
-                rep.violation("C13.R5", f"{f.qualname}:{d}()", f"process exit `{d}(...)` inside library code: a search that "
+                rep.violation(RID, f"{f.qualname}:{d}()", f"process exit `{d}(...)` inside library code: a search that "
                               "cannot conclude terminates the interpreter instead of reporting not-solved", f.loc(c))
         for n in ast.walk(f.node):
             if isinstance(n, ast.Raise) and n.exc is not None and (dotted(n.exc) == "SystemExit" or
                     (isinstance(n.exc, ast.Call) and dotted(n.exc.func) == "SystemExit")):
                 n_exit += 1
-                rep.violation("C13.R5", f"{f.qualname}:raise SystemExit", "process exit inside library code", f.loc(n))
+                rep.violation(RID, f"{f.qualname}:raise SystemExit", "process exit inside library code", f.loc(n))
     for m in prog.modules.values():
         if m.name.endswith("__main__"):
             continue
@@ -553,9 +557,14 @@ def r5(prog: Program, rep):
             for c in calls_in(st):
                 if dotted(c.func) in EXIT_CALLS:
                     n_exit += 1
-                    rep.violation("C13.R5", f"{m.name}:<module>:{dotted(c.func)}()", "process exit at import time", f"{m.relpath}:{c.lineno}")
+                    rep.violation(RID, f"{m.name}:<module>:{dotted(c.func)}()", "process exit at import time", f"{m.relpath}:{c.lineno}")
     if n_exit == 0:
-        rep.ok("C13.R5", "no-process-exit", f"no exit()/quit()/sys.exit()/os._exit()/SystemExit in {sum(1 for _ in prog.all_functions())} functions", "")
+        rep.ok(RID, "no-process-exit", f"no exit()/quit()/sys.exit()/os._exit()/SystemExit in {sum(1 for _ in prog.all_functions())} functions", "")
+
+
+def r5(prog: Program, rep):
+    rep.rule("C13.R5", "no process exit; no handler swallows around a solver run (one tabled exception)", floor=2)
+    no_process_exit(prog, rep, "C13.R5")
     n_h = 0
     for f in prog.all_functions():
         for n in walk_no_nested(f.node):
